@@ -157,6 +157,9 @@ func c08RunOne(dir, comp, name string, data []byte) (out Sx, aux []byte, meas ui
 			aux = ssh1.VerifDecryptEmptyPassphrase(ct)
 		}
 	}
+	if comp == "pgptyped" || comp == "pgpread" {
+		aux = c08PGPOracle(data)
+	}
 	return out, aux, b.TotalAlloc - a.TotalAlloc, dt.Microseconds(), cpu
 }
 
@@ -223,12 +226,49 @@ func c08Call(comp string, data []byte, f *os.File) func() Sx {
 			return SL{l, Bool(final != io.EOF)}
 		}
 	case "pgpread":
-		_, err := openpgp.ReadEntity(packet.NewReader(bytes.NewReader(data)))
+		e, err := openpgp.ReadEntity(packet.NewReader(bytes.NewReader(data)))
 		return func() Sx {
 			if err != nil {
 				return ObsErr()
 			}
-			return ObsOk(SL{})
+			return ObsOk(SL{I(len(e.Subkeys))})
+		}
+	case "pgptyped":
+		// what ReadEntity drives: packet.Reader.Next until it reports an error
+		rd := packet.NewReader(bytes.NewReader(data))
+		var ps []packet.Packet
+		var final error
+		for {
+			p, err := rd.Next()
+			if err != nil {
+				final = err
+				break
+			}
+			ps = append(ps, p)
+		}
+		return func() Sx {
+			l := SL{}
+			for _, p := range ps {
+				switch t := p.(type) {
+				case *packet.Signature:
+					l = append(l, SL{I(1), I(int(t.SigType))})
+				case *packet.SignatureV3:
+					l = append(l, SL{I(2), I(int(t.SigType))})
+				case *packet.PublicKey:
+					l = append(l, SL{I(3), I(int(t.PubKeyAlgo)), Bool(t.IsSubkey)})
+				case *packet.PublicKeyV3:
+					l = append(l, SL{I(4), I(int(t.PubKeyAlgo)), Bool(t.IsSubkey)})
+				case *packet.PrivateKey:
+					l = append(l, SL{I(5), I(int(t.PubKeyAlgo)), Bool(t.IsSubkey)})
+				case *packet.UserId:
+					l = append(l, SL{I(6), I(len(t.Id))})
+				case *packet.UserAttribute:
+					l = append(l, SL{I(7), I(len(t.Contents))})
+				default:
+					l = append(l, SL{I(99)})
+				}
+			}
+			return SL{l, Bool(final != io.EOF)}
 		}
 	case "armor":
 		blk, err := armor.Decode(bytes.NewReader(data))
@@ -448,7 +488,7 @@ func (r rawSx) String() string { return string(r) }
 
 // components with an instrumented model (functional observation compared exactly)
 var c08Modelled = map[string]bool{"readall": true, "ssh1": true, "pgplen": true, "pgpmpi": true, "pgpopaque": true,
-	"der": true, "b64": true, "jks": true, "rpm": true}
+	"der": true, "b64": true, "jks": true, "rpm": true, "armor": true, "pgptyped": true, "pgpread": true}
 
 const c08ModelMax = 40 << 10 // larger inputs are checked against K*n+C and the time limit only
 
@@ -457,6 +497,7 @@ func genC08(c *Ctx) {
 		c08GenGiant(c)
 		return
 	}
+	only := os.Getenv("C08_ONLY")
 	var cases []c08Case
 	add := func(comp, tag, name string, data []byte) {
 		cases = append(cases, c08Case{comp: comp, tag: tag, name: name, data: data})
@@ -464,16 +505,24 @@ func genC08(c *Ctx) {
 	addBig := func(comp, tag, name string, r *c08Recipe) {
 		cases = append(cases, c08Case{comp: comp, tag: tag, name: name, recipe: r})
 	}
-	c08Corpus(c, add, addBig)
-	c08GenSSH1(c, add)
-	c08GenPGP(c, add)
-	c08GenDER(c, add)
-	c08GenB64(c, add)
-	c08GenJKS(c, add)
-	c08GenRPM(c, add)
-	c08GenSSHWire(c, add)
-	c08GenInspect(c, add, addBig)
-	c08GenCompressed(c, add)
+	if only == "pgp" { // development aid
+		c08GenPGP(c, add)
+		c08GenPGPTyped(c, add)
+		c08GenArmor(c, add)
+	} else {
+		c08Corpus(c, add, addBig)
+		c08GenSSH1(c, add)
+		c08GenPGP(c, add)
+		c08GenPGPTyped(c, add)
+		c08GenArmor(c, add)
+		c08GenDER(c, add)
+		c08GenB64(c, add)
+		c08GenJKS(c, add)
+		c08GenRPM(c, add)
+		c08GenSSHWire(c, add)
+		c08GenInspect(c, add, addBig)
+		c08GenCompressed(c, add)
+	}
 
 	res := c08RunIsolated(c, cases)
 	// A CPU time just above the limit may be noise of a loaded machine: measure again (fresh
@@ -513,6 +562,9 @@ func genC08(c *Ctx) {
 			n = len(cs.data)
 		}
 		modelled := c08Modelled[cs.comp] && cs.recipe == nil && n <= c08ModelMax && !(cs.comp == "jks" && jksReachesSecretKey(cs.data))
+		if (cs.comp == "pgptyped" || cs.comp == "pgpread") && (len(r.aux) == 0 || r.aux[0] == 0xFF) {
+			modelled = false // a packet type or key algorithm outside the model was met
+		}
 		if modelled && r.status == 0 {
 			// emitted after all alloc cases: whether a worker survives a multi-gigabyte request is a
 			// race with the watchdog, and the ids of the alloc cases must not depend on it (replay)
@@ -529,9 +581,14 @@ func genC08(c *Ctx) {
 	fmt.Fprintf(os.Stderr, "C08 isolated cases=%d; max wall per case %.3fs (%s); max thread CPU per case %.3fs (%s); limit 5 s CPU\n",
 		len(cases), float64(maxUs)/1e6, maxTag, float64(maxCpu)/1e6, maxCpuTag)
 	fmt.Fprintf(os.Stderr, "C08 largest thread CPU below the limit: %.3fs (%s)\n", float64(maxOkCpu)/1e6, maxOkCpuTag)
-	c08Streams(c)
+	if only == "" {
+		c08Streams(c)
+	}
 	for _, f := range functional {
 		f()
+	}
+	if only != "" {
+		return
 	}
 	// last, so that the ids of all cases above do not depend on where a giant-field shape stops
 	c08GenGiant(c)
@@ -654,6 +711,8 @@ func c08Corpus(c *Ctx, add func(comp, tag, name string, data []byte), addBig fun
 		addBig("inspect", "corpus-D1-dsa-giant-modulus-valid-signatures", "k.asc",
 			rcp(append(append([]byte{}, kp...), up...), sp, (48<<10-len(kp)-len(up))/len(sp), nil).armor("PGP PUBLIC KEY BLOCK"))
 	}
+	// C08-Z1: a key block followed by three-octet compressed data packets (a DEFLATE decompressor each)
+	addBig("inspect", "corpus-Z1-many-compressed-packets", "k.asc", rcp(rawPGPKey(nil), []byte{0xC8, 1, 1}, 2000, nil).armor("PGP PUBLIC KEY BLOCK"))
 	add("armor", "corpus-A1-longheader-64k", "k.asc", []byte("-----BEGIN PGP PUBLIC KEY BLOCK-----\nVersion: "+strings.Repeat("x", 1<<16)+"\n\nAAAA\n-----END PGP PUBLIC KEY BLOCK-----\n"))
 }
 
